@@ -225,7 +225,47 @@ func (g *Gen) execInstr(st *State, in ssa.Instruction) {
 			st.defers = nil
 		}
 	case *ssa.Go:
-		g.note("go", "goroutine start not modelled: "+x.Common().String())
+		// the goroutine's effects are not modelled; a call-site clause `callee go:<name>(...)` can put an oracle (requires)
+		// and ghost updates (set) on the start itself: "the heartbeat is started exactly once"
+		handled := false
+		if g.spec != nil {
+			c := x.Common()
+			keys, _, _, _ := g.calleeKeys(c)
+			var args []Val
+			for _, a := range c.Args {
+				args = append(args, g.value(st, a))
+			}
+			for _, cs := range g.spec.Callees {
+				for _, k := range keys {
+					if cs.Name == "go:"+k && !handled {
+						handled = true
+						g.calleeUse[cs]++
+						if len(cs.Ensures) > 0 {
+							g.unsupported("callee " + cs.Name + ": ensures on a go statement is not supported (requires / set only)")
+						}
+						binds := map[string]Val{}
+						explicit := args
+						if !c.IsInvoke() && c.Signature().Recv() != nil && len(args) > 0 {
+							binds["recv"] = args[0]
+							explicit = args[1:]
+						}
+						for i, n := range cs.Params {
+							if i < len(explicit) && n != "_" {
+								binds[n] = explicit[i]
+							}
+						}
+						g.applyContract(st, contractApp{what: "callee " + cs.Name, binds: binds, requires: cs.Requires, sets: cs.Sets,
+							pure: true, rt: types.NewTuple(), clausePrefix: "callee " + cs.Name + " ", ownNames: true, mutGhosts: cs.MutGhosts})
+					}
+				}
+			}
+			for _, a := range args {
+				g.publish(st, a)
+			}
+		}
+		if !handled {
+			g.note("go", "goroutine start not modelled: "+x.Common().String())
+		}
 	case *ssa.Convert:
 		g.regs[x] = g.convert(st, g.value(st, x.X), x.X.Type(), x.Type())
 	case *ssa.ChangeType:
@@ -974,6 +1014,12 @@ func (g *Gen) typeAssert(st *State, x *ssa.TypeAssert) Val {
 	}
 	if x.CommaOk {
 		return TupleV{E: []Val{res, BoolV{ok}}}
+	}
+	if g.spec != nil && g.spec.Options["allow-panic"] != "" && types.IsInterface(x.AssertedType) {
+		// a function whose contract allows it to panic (configuration-time code): a failed assertion to an interface type
+		// is such a panic; execution continues only where it held
+		g.assume(st, ok)
+		return res
 	}
 	g.oblige(st, "typeassert", "", "type assertion holds", ok)
 	return res
